@@ -83,3 +83,9 @@ Definition grisk_map (v : volume) (etas : list Q) : option (list (list (xf * xf)
 
 Definition xpair (p : oq * oq) : xf * xf := (of_oq (fst p), of_oq (snd p)).
 Definition xeq2 (a b : xf * xf) : Prop := xeq (fst a) (fst b) /\ xeq (snd a) (snd b).
+
+(* ---- normalize_with_percentile: np.percentile is a parameter of the generated function; its contract is numpy's
+   default method, linear interpolation between the order statistics (the model's [quantile_sorted]) *)
+Definition percentile_ok (pctl : mat2 -> xf -> xf) : Prop :=
+  forall (amb : list (list Q)) q,
+    pctl (map (map XFin) amb) (XFin q) = of_oq (quantile_sorted (qsort (concat amb)) (q / 100)).
